@@ -114,6 +114,10 @@ func c09Oracle(w *rnsWorld, st *rnsStep) *rnsFailure {
 		if d := st.BalBefore.Diff(st.BalAfter); len(d) > 0 {
 			return &rnsFailure{"C09/failed-message-moved-funds", fmt.Sprintf("%s failed but %v changed", st.Kind, d)}
 		}
+		// a bidder gets its escrow back by cancelling: a cancel of an open bid, addressed exactly as it is stored, cannot be refused
+		if _, open := st.BidsBefore[st.Signer+st.Name]; open && st.Kind == "cancel" {
+			return &rnsFailure{"C09/cancel-refused", fmt.Sprintf("%s cannot cancel its open bid on %q (escrowed %q): %s", short(st.Signer), st.Name, st.EscrowModel.String(), st.Res)}
+		}
 		return nil
 	}
 	lname := strings.ToLower(st.Name)
@@ -396,7 +400,8 @@ func sortStrings(s []string) {
 
 func rnsGenesis() chain.GenesisOpts {
 	return chain.GenesisOpts{NumAccounts: 4,
-		Balance: sdk.NewCoins(sdk.NewInt64Coin("ujkl", 100_000_000_000), sdk.NewInt64Coin("uatom", 1_000_000_000))}
+		Balance: sdk.NewCoins(sdk.NewInt64Coin("ujkl", 100_000_000_000), sdk.NewInt64Coin("uatom", 1_000_000_000),
+			sdk.NewCoin("aeth", sdk.NewIntWithDecimal(1, 45)))}
 }
 
 // scenario helpers for the plain regression replays
